@@ -871,8 +871,6 @@ fn sim_network(rng: &mut Rng, n: usize, big: bool, with_dc: bool, caps: &[usize]
             for _ in 0..trials {
                 let cap = *rng.pick(caps);
                 let variant: Variant = *rng.pick($variants);
-                // without a DC reference the real (spin) lock would hang the harness: see c07/sync-no-reference-deadlock
-                let variant = if variant == Variant::Sync && dc_ref == 0 { Variant::Plain } else { variant };
                 let cap = if variant != Variant::Plain && dc_ref != 0 { cap.max(50) } else { cap };
                 // arbitrary device-side state: input memory, AL status
                 for (i, dev) in seg.devices.iter_mut().enumerate() {
@@ -970,7 +968,8 @@ fn sim_network(rng: &mut Rng, n: usize, big: bool, with_dc: bool, caps: &[usize]
     }
 }
 
-/// Child process: the KNOWN-FINDING witness with the real `DefaultLock` (a spin lock). Prints `returned` if the call
+/// Child process: the witness of the repaired defect `c07/sync-no-reference-deadlock` (KNOWN_FINDINGS `fixed:`) with the real
+/// `DefaultLock` (a spin lock; a regression would hang, hence the child process). Prints `returned` if the call
 /// comes back; the parent kills it when it does not.
 fn probe_deadlock_child() -> ! {
     let (mut net, md) = Net::new(Segment::line(vec![]), 2, 64, timeouts(), MainDeviceConfig::default());
@@ -980,10 +979,22 @@ fn probe_deadlock_child() -> ! {
     std::process::exit(0)
 }
 
-/// Run the witness of `c07/sync-no-reference-deadlock` on the unmodified lock in a child process.
+/// CPU time (user + system, in clock ticks of 10 ms) a process has consumed so far.
+fn cpu_ticks(pid: u32) -> Option<u64> {
+    let stat = std::fs::read_to_string(format!("/proc/{pid}/stat")).ok()?;
+    // fields after the parenthesised command name; utime and stime are fields 14 and 15 overall
+    let rest = &stat[stat.rfind(')')? + 2..];
+    let f: Vec<&str> = rest.split(' ').collect();
+    Some(f.get(11)?.parse::<u64>().ok()? + f.get(12)?.parse::<u64>().ok()?)
+}
+
+/// Run the witness of `c07/sync-no-reference-deadlock` on the unmodified lock in a child process. A call that returns
+/// needs a few milliseconds of CPU time; a call spinning on the lock burns CPU for ever. The verdict is therefore
+/// taken from the child's CPU time (more than 2 s without exiting = hung), not from wall-clock time, so that a
+/// loaded machine cannot fake a hang; after 120 s of wall-clock time without either the probe is inconclusive.
 fn probe_deadlock(rep: &mut Report) {
     let Ok(exe) = std::env::current_exe() else { return };
-    let Ok(mut child) = std::process::Command::new(exe).arg("--probe-deadlock").stdout(std::process::Stdio::piped()).stderr(std::process::Stdio::null()).spawn() else {
+    let Ok(mut child) = std::process::Command::new(exe).arg(std::env::var("C07_PROBE_ARG").unwrap_or_else(|_| "--probe-deadlock".to_string())).stdout(std::process::Stdio::null()).stderr(std::process::Stdio::null()).spawn() else {
         rep.notes.push("deadlock probe: could not spawn the child process".into());
         return;
     };
@@ -992,33 +1003,42 @@ fn probe_deadlock(rep: &mut Report) {
         match child.try_wait() {
             Ok(Some(_)) => {
                 rep.hit("deadlock-probe=returned");
-                rep.notes.push("deadlock probe: tx_rx_sync_system_time without a DC reference returned on the real DefaultLock".into());
                 return;
             }
-            Ok(None) if t0.elapsed() > Duration::from_millis(1500) => {
-                let _ = child.kill();
-                let _ = child.wait();
-                rep.hit("deadlock-probe=hung");
-                rep.fail(
-                    "c07/sync-no-reference-deadlock",
-                    "tx_rx_sync_system_time on a group with the real DefaultLock and no DC reference did not return within 1.5 s (child process killed)",
-                    "c07 sync chk 64 0 0 16 0 0 - - -",
-                );
-                return;
+            Ok(None) => {
+                let spun = cpu_ticks(child.id()).is_some_and(|t| t > 200);
+                if spun {
+                    let _ = child.kill();
+                    let _ = child.wait();
+                    rep.hit("deadlock-probe=hung");
+                    rep.fail(
+                        "c07/sync-no-reference-deadlock",
+                        "tx_rx_sync_system_time on a group with the real DefaultLock and no DC reference burnt 2 s of CPU time without returning (child process killed)",
+                        "c07 sync chk 64 0 0 16 0 0 - - -",
+                    );
+                    return;
+                }
+                if t0.elapsed() > Duration::from_secs(120) {
+                    let _ = child.kill();
+                    let _ = child.wait();
+                    rep.hit("deadlock-probe=inconclusive");
+                    rep.notes.push("deadlock probe: child neither returned nor consumed 2 s of CPU within 120 s (machine overloaded?)".into());
+                    return;
+                }
+                std::thread::sleep(Duration::from_millis(20));
             }
-            Ok(None) => std::thread::sleep(Duration::from_millis(20)),
             Err(_) => return,
         }
     }
 }
 
-/// The witnesses of the two known findings (KNOWN_FINDINGS.txt), replayed on the real code.
+/// The witnesses of the known finding and of the repaired one (KNOWN_FINDINGS.txt), replayed on the real code.
 fn known_witnesses(rep: &mut Report) {
     probe_deadlock(rep);
     for c in [
         // c07/wkc-sum-overflow: two LRW chunks whose working counters sum to 65536
         Case { variant: Variant::Plain, cap: 30, pdi_start: 0, read_len: 0, max_sd: 16, dc_ref: 0, idx0: 0, image: vec![1, 2, 3, 4], addrs: vec![], resps: vec![vec![(vec![1, 2], 0x8000)], vec![(vec![3, 4], 0x8000)]] },
-        // c07/sync-no-reference-deadlock on the deadlock-detecting lock
+        // c07/sync-no-reference-deadlock (fixed): must complete, also on the deadlock-detecting lock
         Case { variant: Variant::Sync, cap: 64, pdi_start: 0, read_len: 0, max_sd: 16, dc_ref: 0, idx0: 0, image: vec![], addrs: vec![], resps: vec![] },
     ] {
         let script = Script::Fixed(c.resps.clone());
@@ -1168,6 +1188,12 @@ fn run_all(tier: &str, seed: u64, rep: &mut Report) {
 fn main() {
     if std::env::args().any(|a| a == "--probe-deadlock") {
         probe_deadlock_child();
+    }
+    // self-test of the hang detector: a child that spins like a thread waiting for the lock would
+    if std::env::args().any(|a| a == "--probe-spin") {
+        loop {
+            std::hint::spin_loop();
+        }
     }
     let args = ecverif::parse_args();
     let mut rep = Report::default();
